@@ -678,6 +678,11 @@ def long_lines_case(ctx, RP, r, cid, thorough):
     lens = [int(v) for v in r.choice([129, 140, 200, 257, 300] if thorough
                                      else [129, 140, 200, 257],
                                      int(r.integers(2, 4)))]
+    if r.random() < (0.3 if thorough else 0.15):
+        # one plateau longer than 512 (1024) samples
+        lens[0] = int(r.choice([520, 1030] if thorough else [520]))
+        lens = lens[:2]
+        ctx.count("long_line_cases_beyond_512")
     levels = r.permutation(8)[:len(lens)].astype(float) * 4.0
     x = np.concatenate([np.full(n, lv) + r.integers(0, 2, n) / 8.0
                         for n, lv in zip(lens, levels)])
